@@ -5,7 +5,8 @@ import ast
 
 from sa import terms as T
 from sa.core import AnalysisError
-from sa.rules.common import effects, call_head, kwarg, processing_path, is_logger_call, param_default
+from sa.rules.common import effects, call_head, kwarg, processing_path, is_logger_call, param_default, \
+    param_default_term
 from sa.terms import tag
 
 # third-party estimators / routines that draw random numbers unless given an explicit random_state
@@ -55,8 +56,7 @@ def _seed_term_ok(fx, p, t, f, depth):
         name = t[1]
         d = param_default(f, name)
         has_default = d is not None
-        if has_default and not (isinstance(d, ast.Constant) and isinstance(d.value, int)
-                                and not isinstance(d.value, bool)):
+        if has_default and not _seed_ok(param_default_term(p, f, name)):      # named constants resolved
             return False, f'parameter {name!r} defaults to {ast.unparse(d)}'
         sites = fx.sites.get(f.qname, [])
         if not has_default and not sites:
@@ -204,6 +204,33 @@ def tmp_seed_typestate(ctx, rule='C09-R3'):
     seeds = [e for e in evs if e.kind == 'call' and call_head(e) == 'numpy.random.seed']
     sets = [e for e in evs if e.kind == 'call' and call_head(e) == 'numpy.random.set_state']
     yields = [e for e in evs if e.kind == 'yield']
+    # the other way of saying "finally": the restoration registered on an ExitStack whose `with` encloses the yield
+    STACK = ('call', ('g', 'contextlib.ExitStack'), (), ())
+    regs = [e for e in evs if e.kind == 'call' and tag(e.call) == 'mcall' and e.call[2] == 'callback'
+            and tag(e.call[1]) == 'withval' and e.call[1][1] == STACK and e.call[3]
+            and e.call[3][0] == ('g', 'numpy.random.set_state')]
+    if gets and seeds and yields and regs and not sets:
+        g, s, y, r = gets[0], seeds[0], yields[0], regs[0]
+        ctx.check(g.seq < s.seq, rule, TMP_SEED, s.node, s.loc(),
+                  'the generator is re-seeded before its state is saved: the saved state is the temporary one',
+                  instance='state saved before seeding')
+        ctx.check(s.seq < y.seq, rule, TMP_SEED, y.node, y.loc(), 'body runs before the temporary seed is set',
+                  instance='seeded before the body')
+        a0 = s.call[2][0] if s.call[2] else dict(s.call[3]).get('seed')
+        ctx.check(a0 == ('p', f.params[0]), rule, TMP_SEED, s.node, s.loc(),
+                  f'np.random.seed is called with {T.show(a0)}, not the requested seed', instance='seeded with the argument')
+        ok_reg = len(r.call[3]) == 2 and r.call[3][1] == g.call and not r.call[4] and STACK in y.withs and STACK in r.withs \
+            and r.seq < y.seq and not [l for l in T.find(r.guard, lambda x: tag(x) == 'cmp')]
+        ctx.check(ok_reg, rule, TMP_SEED, y.node, y.loc(),
+                  'the saved state is not restored on every way out of the body (no finally block enclosing the yield, no '
+                  'unconditional ExitStack.callback(np.random.set_state, saved) registered before it inside the enclosing '
+                  'with): an exception in the body leaves the global generator re-seeded',
+                  instance='yield inside try / finally: set_state(saved)')
+        between = [e for e in evs if s.seq < e.seq < r.seq and e.kind in ('call', 'raise', 'assert')]
+        ctx.check(not between, rule, TMP_SEED, (between[0].node if between else s.node), s.loc(),
+                  'a statement that can raise sits between np.random.seed() and the registration of the restoration',
+                  instance='no raising statement between seed() and try')
+        return
     if not (gets and seeds and sets and yields):
         ctx.violation(rule, TMP_SEED, f.node.name, f.loc(),
                       f'save/seed/yield/restore sequence incomplete: get_state x{len(gets)}, '
